@@ -190,6 +190,28 @@ func genC03(r *Rng, tier string, emit func(Case)) {
 			b[k] = []byte("bio1:Q -!~")[r.Intn(10)]
 			e("csub", "foreign", hs(valid), hx(b))
 		}
+		// bit variants: 1..5 payload characters replaced by the SAME byte with one bit flipped (every bit 0..7: the
+		// other case, a control byte, a byte with the top bit set, a neighbouring character) - the mistakes of table
+		// look-ups and case folding done with masks; in the lower-case and in the upper-case rendering
+		for _, base := range []string{valid, strings.ToUpper(valid)} {
+			if r.Intn(2) == 0 {
+				b := []byte(base)
+				nb := 1 + r.Intn(5)
+				bit := uint(r.Intn(8))
+				same := r.Bool()
+				for _, j := range r.Perm(len(syms)) {
+					if nb == 0 {
+						break
+					}
+					if !same {
+						bit = uint(r.Intn(8))
+					}
+					b[len(pre)+1+j] ^= 1 << bit
+					nb--
+				}
+				e("csub", "bitvariant", hs(base), hx(b))
+			}
+		}
 		// case changes in the payload: 1..5 letters upper-cased, the last character always among them (mixed case is
 		// rejected whatever the position); and a multi-byte rune that Unicode folds to an ASCII letter
 		{
@@ -289,6 +311,26 @@ func genC03(r *Rng, tier string, emit func(Case)) {
 			if r.Intn(3) == 0 {
 				e("bsub", "utf8", hs(bvalid), hs(utf8Variant(r, bvalid)))
 				e("bsub", "utf8", hs(bvalid), hs(utf8Variant(r, strings.ToUpper(bvalid))))
+			}
+			// bit variants (see csub): 1..4 data characters with one bit of the byte flipped, lower- and upper-case base
+			for _, base := range []string{bvalid, strings.ToUpper(bvalid)} {
+				if r.Intn(2) == 0 {
+					vb := []byte(base)
+					nb := 1 + r.Intn(4)
+					bit := uint(r.Intn(8))
+					same := r.Bool()
+					for _, j := range r.Perm(len(bs)) {
+						if nb == 0 {
+							break
+						}
+						if !same {
+							bit = uint(r.Intn(8))
+						}
+						vb[len(hrp)+1+j] ^= 1 << bit
+						nb--
+					}
+					e("bsub", "bitvariant", hs(base), hx(vb))
+				}
 			}
 			// case changes: 1..4 letters of the data part upper-cased (a mixed-case string must be rejected)
 			cb := []byte(bvalid)
